@@ -2,6 +2,7 @@ package gtree
 
 import (
 	"bufio"
+	"bytes"
 	"context"
 	"fmt"
 	"io"
@@ -12,6 +13,7 @@ import (
 
 func split(ctx context.Context, r io.Reader) (<-chan string, <-chan error) {
 	sc := bufio.NewScanner(r)
+	sc.Split(scanRawLines)
 	blockc := make(chan string)
 	errc := make(chan error)
 
@@ -63,6 +65,22 @@ func split(ctx context.Context, r io.Reader) (<-chan string, <-chan error) {
 	}()
 
 	return blockc, errc
+}
+
+// scanRawLines is bufio.ScanLines without the removal of a trailing carriage return. The blocks
+// are scanned once more by the stage that parses them, and a line must lose at most one
+// carriage return in total, as it does without the massive option.
+func scanRawLines(data []byte, atEOF bool) (advance int, token []byte, err error) {
+	if atEOF && len(data) == 0 {
+		return 0, nil, nil
+	}
+	if i := bytes.IndexByte(data, '\n'); i >= 0 {
+		return i + 1, data[0:i], nil
+	}
+	if atEOF {
+		return len(data), data, nil
+	}
+	return 0, nil, nil
 }
 
 // sendErr reports err on a stage's error channel. The error channels are read once (the first
